@@ -64,6 +64,9 @@ let () = Reg.register "c14.instantiate" (fun inp out ->
     | [A "ok"; _; _] when not (Templates.inst_checks (nat_of_int 400) m) ->
       (* the side conditions of the Coq theorem C14_instantiate_correct, evaluated on this model *)
       "bad:side-conditions-of-the-correctness-theorem-do-not-hold"
+    | [A "ok"; _; _] when m.m_params <> [] && not (TemplatesWf.wf_templates (nat_of_int 400) m) ->
+      (* the static hypothesis of C14_instantiate_correct_wf (implies inst_checks_core for every model) *)
+      "bad:static-well-formedness-wf_templates-does-not-hold"
     | [A "ok"; nts; _] ->
       let nts = get_nonterms nts in
       let t = SL.length m.m_terms in
@@ -115,6 +118,8 @@ let () = Reg.register "c14.pipeline" (fun inp out ->
   let model = if r.Templates.tr_fatal || e.Expand.res_error || e.Expand.res_fatal then L [A "err"]
     else L [A "ok"; put_nonterms e.Expand.res_nonterms; put_inputs e.Expand.res_inputs] in
   let verdict = match lst out with
-    | [A "ok"; _; _] -> if Expand.expand_checks m2 then "ok" else "bad:side-conditions-of-the-correctness-theorem-do-not-hold"
+    | [A "ok"; _; _] ->
+      if not (Expand.expand_checks m2) then "bad:side-conditions-of-the-correctness-theorem-do-not-hold"
+      else if not (ExpandWf.wf_model m2) then "bad:static-well-formedness-wf_model-does-not-hold" else "ok"
     | _ -> "ok" in
   (model, verdict))
